@@ -394,6 +394,36 @@ func genParseText(r *rng, kind string, maxLen int) ([]byte, string) {
 			s[i] = byte(r.intn(256))
 		}
 		return s, "random-bytes"
+	case c == 18 && r.chance(0.5):
+		// flat operator chains over arguments and constants of every type (what the constant-folding
+		// and re-association rules of the optimizer work on), without any call or closure
+		consts := []string{"1", "2", "0", "2.5", "\"s\"", "\"\"", "true", "false", "[1]", "[]", "{k:1}", "-1", "1e3"}
+		ops := []string{"*", "+", "&", "|", "=", "-", "/", "%", "^", "<", "!=", ">=", "<<", "~"}
+		n := r.rangeInt(3, 9)
+		if r.chance(0.1) {
+			n = r.rangeInt(10, 200)
+		}
+		op := pick(r, ops...)
+		var b strings.Builder
+		for i := 0; i < n; i++ {
+			if i > 0 {
+				if r.chance(0.25) {
+					op = pick(r, ops...)
+				}
+				b.WriteString(pick(r, "", " ") + op + pick(r, "", " "))
+			}
+			switch r.intn(5) {
+			case 0, 1:
+				b.WriteString(pick(r, "a", "b", "a", "b", "pi", "zz"))
+			default:
+				b.WriteString(pick(r, consts...))
+			}
+		}
+		text := b.String()
+		if r.chance(0.2) {
+			text = "let c=" + pick(r, consts...) + "; " + strings.ReplaceAll(text, "zz", "c")
+		}
+		return []byte(text), "const-chain"
 	case c == 19 && r.chance(0.5):
 		// long postfix / operator chains
 		unit := pick(r, "(1)", "[0]", ".a", ".size()", "+1", "*a", "-a-1", "&true", "(a)(b)", ".map(x->x)", "²", " a")
